@@ -177,6 +177,25 @@ def run(ctx):
                 r.samples.append(key)
         r.traces += nsp
         r.nontrivial += nsp
+    # spoke coordinates that are "equal" up to floating-point residue (0.1 + 0.2 next to 0.3): the tiny non-zero increments must
+    # not produce non-finite samples, and limits / increments still hold
+    for kf in (np.array([[0.1 + 0.2, 0.0], [0.3, 0.1 + 0.2], [0.3, 0.3]]), np.array([[1.0, 1.0 / 3], [1.0 - 1e-16, 1.0 / 3 + 1e-17], [0.5, 0.0]])):
+        for dgdt, dt in UNITS[:2]:
+            gmax = 4.0 * dgdt * dt * 50
+            r.evaluations += 1
+            try:
+                gf_ = rf.spokes_grad(kf, 4.0, 0.5, gmax, dgdt, dt)
+            except Exception as e:
+                r.violations.append(core.Violation(["C20"], "trap", {"kind": "exception", "fn": "spokes_grad", "k": kf.tolist()}, "spokes_grad raised %r for nearly coincident spoke coordinates" % (e,), {}))
+                continue
+            if not np.isfinite(gf_).all():
+                r.violations.append(core.Violation(["C20"], "trap", {"kind": "undefined", "fn": "spokes_grad", "k": kf.tolist()}, "spokes_grad returned non-finite samples for spoke coordinates that differ by floating-point residue", {}))
+                continue
+            if np.abs(gf_).max() > gmax * (1 + 1e-9) or np.abs(np.diff(gf_, axis=1)).max() / dt > dgdt * (1 + 1e-7):
+                r.violations.append(core.Violation(["C20"], "trap", {"kind": "slew", "fn": "spokes_grad", "k": kf.tolist()}, "amplitude / slew limit exceeded for nearly coincident spoke coordinates", {}))
+            kk_ = np.cumsum(gf_[:2], axis=1)[:, -1] * dt * 4257
+            if np.abs(kk_ + kf[0]).max() > 1e-6:       # from the first spoke location to the origin: net change -k[0]
+                r.violations.append(core.Violation(["C20"], "trap", {"kind": "kspace_increment", "fn": "spokes_grad", "k": kf.tolist()}, "the x / y gradients move k-space by %s in total, the spoke set asks for %s" % (kk_, -kf[0]), {}))
     # the same spoke locations given with an integer dtype (a valid "spoke location set"): the result must not depend on the dtype
     for kint in (np.array([[1, 0], [-1, 0], [0, 1], [0, -1], [0, 0]]), np.array([[2, -1]]), np.array([[3, 3], [-2, 5]], dtype=np.int32)):
         for dgdt, dt in UNITS[:2]:
